@@ -676,6 +676,16 @@ fn match_loops(heads: &[String], anchors: &serde_json::Map<String, Value>) -> (V
             None => vanished.push(label),
         }
     }
+    // pass 3: the head of a named loop was edited in place: the loop at its own ordinal, if nobody else claimed it, is still that loop
+    let mut still_vanished = vec![];
+    for label in vanished {
+        if label < n && label_of[label].is_none() {
+            label_of[label] = Some(label);
+        } else {
+            still_vanished.push(label);
+        }
+    }
+    let vanished = still_vanished;
     let used: Vec<usize> = label_of.iter().flatten().cloned().collect();
     let named_labels: Vec<usize> = named.iter().map(|(l, _)| *l).collect();
     let mut out = vec![];
@@ -1753,7 +1763,7 @@ pub fn extract_fn(file: &syn::File, name: &str, opts: &Value, rules: &[Rule], pl
         },
         "has_body": has_body,
         "body": lines_json(&body_lines),
-        "loops": cx.loops, "closures": cx.closures, "dasserts": cx.dasserts, "vanished_loops": vanished_loops, "vanished_proofs": vanished_proofs,
+        "loops": cx.loops, "closures": cx.closures, "dasserts": cx.dasserts, "vanished_loops": vanished_loops, "vanished_proofs": vanished_proofs, "loop_heads": cx.loop_heads,
         "rewrites": log, "errors": cx.errors, "src_line": src_line,
     }))
 }
